@@ -1229,3 +1229,60 @@ mod tests {
         check_ratio!(resampler, ratio, 1000);
     }
 }
+
+/// Verification hooks (read-only accessors and re-exports), compiled only with `--cfg rubato_verif`.
+#[cfg(rubato_verif)]
+pub mod verif {
+    use super::*;
+
+    pub fn interp_septic<T: Sample>(x: T, yvals: &[T]) -> T {
+        super::interp_septic(x, yvals)
+    }
+    pub fn interp_quintic<T: Sample>(x: T, yvals: &[T]) -> T {
+        super::interp_quintic(x, yvals)
+    }
+    pub fn interp_cubic<T: Sample>(x: T, yvals: &[T]) -> T {
+        super::interp_cubic(x, yvals)
+    }
+    pub fn interp_lin<T: Sample>(x: T, yvals: &[T]) -> T {
+        super::interp_lin(x, yvals)
+    }
+
+    impl<T: Sample> FastFixedIn<T> {
+        /// chunk_size, last_index, resample_ratio, target_ratio (floats as bits).
+        pub fn verif_state(&self) -> Vec<u64> {
+            vec![
+                self.chunk_size as u64,
+                self.last_index.to_bits(),
+                self.resample_ratio.to_bits(),
+                self.target_ratio.to_bits(),
+            ]
+        }
+        pub fn verif_buffers(&self) -> &Vec<Vec<T>> {
+            &self.buffer
+        }
+        pub fn verif_mask(&self) -> &Vec<bool> {
+            &self.channel_mask
+        }
+    }
+
+    impl<T: Sample> FastFixedOut<T> {
+        /// chunk_size, last_index, resample_ratio, target_ratio, needed_input_size, current_buffer_fill.
+        pub fn verif_state(&self) -> Vec<u64> {
+            vec![
+                self.chunk_size as u64,
+                self.last_index.to_bits(),
+                self.resample_ratio.to_bits(),
+                self.target_ratio.to_bits(),
+                self.needed_input_size as u64,
+                self.current_buffer_fill as u64,
+            ]
+        }
+        pub fn verif_buffers(&self) -> &Vec<Vec<T>> {
+            &self.buffer
+        }
+        pub fn verif_mask(&self) -> &Vec<bool> {
+            &self.channel_mask
+        }
+    }
+}
